@@ -12,7 +12,8 @@ for mp in sorted(glob.glob(os.path.join(VERIF, 'seeded', '*', 'meta.json'))):
     cb = m.get('caught_by', {})
     ownr = ','.join(sorted(set(x['rule'] for x in cb.get(own, [])))) or '-'
     others = '; '.join('%s:%s' % (p, ','.join(sorted(set(x['rule'] for x in v)))) for p, v in sorted(cb.items()) if p != own) or '-'
-    rows.append('| %s | %s | %s | %s | %s |' % (name, ', '.join(m.get('files', [])), first, ownr, others))
-print('| seed | file(s) | change (first sentence of the author\'s note) | caught under its own property by | also reported under |')
-print('|---|---|---|---|---|')
+    fc = m.get('first_contact_own')
+    rows.append('| %s | %s | %s | %s | %s | %s |' % (name, ', '.join(m.get('files', [])), first, {True: 'yes', False: 'no', None: 'n/k'}[fc], ownr, others))
+print('| seed | file(s) | change (first sentence of the author\'s note) | own property at first contact | now caught under its own property by | also reported under |')
+print('|---|---|---|---|---|---|')
 print('\n'.join(rows))
